@@ -240,7 +240,11 @@ func (self *Core) runInstruction(instruction compiler.Instruction) *value.VmInte
 			fmt.Printf("Memory write access `%v` at %x\n", *v, abs)
 		}
 
-		self.Memory[abs] = v
+		// A variable is a cell of its own. The value on the stack can be the cell of a list element, an object
+		// field or another variable (`let x = xs[0]`, an argument `f(o.f)`): binding that cell itself would make
+		// the variable an alias of it. Lists and objects stay shared, they refer to their contents.
+		cell := *v
+		self.Memory[abs] = &cell
 	case compiler.Opcode_SetGlobImm:
 		i := instruction.(compiler.OneStringInstruction)
 		v := self.pop()
